@@ -375,7 +375,15 @@ func (g *gateway) ServeHTTP(w http.ResponseWriter, req *http.Request) {
 	}
 	g.mu.Lock()
 	if seq > g.lastSeq {
-		g.lastSeq, g.families = seq, fams
+		g.lastSeq = seq
+		if req.Method == http.MethodPost && g.families != nil {
+			// POST replaces only the metric families present in the push; PUT replaces the whole group
+			for name, f := range fams {
+				g.families[name] = f
+			}
+		} else {
+			g.families = fams
+		}
 	}
 	g.mu.Unlock()
 	time.Sleep(g.delay)
@@ -414,6 +422,42 @@ func TestC16Push(t *testing.T) {
 		{time.Duration(5200+r.Range(0, 300)) * time.Millisecond, time.Second}}
 	for k := 0; k < kit.N(0, 4); k++ {
 		plans = append(plans, plan{time.Duration(5100+r.Range(0, 800)) * time.Millisecond, time.Duration(r.Range(300, 1500)) * time.Millisecond})
+	}
+	// two runs of the same scenario on one metrics instance and one gateway: the second run's setup
+	// fails, so it has no iterations - and the gateway must not go on showing the first run's
+	for k := 0; k < kit.N(1, 4); k++ {
+		gw := &gateway{}
+		srv := httptest.NewServer(gw)
+		settings := envsettings.Settings{}
+		settings.Prometheus.PushGateway = srv.URL
+		m := runkit.NewMetrics(genLabels(r), true)
+		for round := 0; round < 2; round++ {
+			failSetup := round == 1
+			cfg := runkit.Config{Mode: "users", Name: "scnpush", Metrics: m, Ctx: context.Background(), Settings: settings,
+				Opts: options.RunOptions{MaxDuration: 3 * time.Second, Concurrency: 2, MaxIterations: uint64(r.Range(3, 12)), MaxFailuresRate: 100},
+				Scenario: func(st *f1testing.T) f1testing.RunFn {
+					if failSetup {
+						st.Fail()
+					}
+					return func(*f1testing.T) {}
+				}}
+			out, hung, _ := runkit.DoTimeout(cfg, 60*time.Second)
+			if hung || out.Result == nil {
+				o.Fail("c16-run", "run against a push gateway did not complete")
+				break
+			}
+			sn := out.Result.Snapshot()
+			got := gw.iterationCounts()
+			if got["success"] != sn.SuccessfulIterationDurations.Count || got["fail"] != sn.FailedIterationDurations.Count || got["dropped"] != sn.DroppedIterationCount {
+				o.Fail("gateway-keeps-earlier-run", fmt.Sprintf("run %d of the same scenario on one metrics instance and gateway (setup fails: %v): the final result reports %d successful / %d failed / %d dropped, the gateway holds %d success / %d fail / %d dropped iteration samples",
+					round+1, failSetup, sn.SuccessfulIterationDurations.Count, sn.FailedIterationDurations.Count, sn.DroppedIterationCount, got["success"], got["fail"], got["dropped"]))
+			}
+			o.Case("c01_ok", []string{kit.I(sn.SuccessfulIterationDurations.Count), kit.I(sn.FailedIterationDurations.Count), kit.I(sn.DroppedIterationCount),
+				kit.I(sn.SuccessfulIterationDurations.Count), kit.I(sn.FailedIterationDurations.Count), kit.I(sn.DroppedIterationCount),
+				"T", kit.I(got["success"]), kit.I(got["fail"]), kit.I(got["dropped"])}, "T", "push", "consecutive", "nt")
+		}
+		srv.Close()
+		o.Count("gateway", "two runs, second setup fails")
 	}
 	for _, p := range plans {
 		gw := &gateway{delay: p.delay}
